@@ -612,6 +612,89 @@ def _bone_index_validity_rule(ctx, m2):
         ctx.bad(R, "validate_bone_data|no-comparison", f.where, "no comparison between a bone index and bone_count found", "invalid indices are no longer detected, or the shape changed")
 
 
+def _embedded_skin_width_rule(ctx, m2):
+    """pre-WotLK models carry their skin views inside the M2 file.  Three routines name the element width of each view array:
+    collect_embedded_skin_data (reads n * K bytes), M2Model::write (writes n = len / K) and parse_embedded_skin (slices n * K):
+    per array the three K must be one number"""
+    R = ctx.rule("C13.embedded-skin-element-widths-agree", "for indices / triangles / properties / batches the byte width per element is the same in collect_embedded_skin_data, M2Model::write and parse_embedded_skin", floor=4)
+    byname = {}
+    for f in m2.fn_list:
+        if not f.hir or f.kind == "Closure":
+            continue
+        last = norm(f.path).split("::")[-1]
+        if last == "collect_embedded_skin_data":
+            ctx.saw_fn(f)
+            for c_ in hirq.calls(f.hir["body"]):
+                if re.search(r"read_counted_bytes$|read_raw|read_exact", c_.get("fn") or "") and len(c_.get("args") or []) >= 3:
+                    nm = hirq.render(c_["args"][1])
+                    k = hirq.lit_int(hirq.strip(c_["args"][2]))
+                    m_ = re.fullmatch(r"n_(\w+)", nm)
+                    if m_ and k is not None:
+                        byname.setdefault(m_.group(1), {})["reader collect_embedded_skin_data"] = (k, f, c_.get("ln"))
+        elif last in ("write", "parse_embedded_skin") and ("M2Model" in f.path):
+            for l in hirq.find(f.hir["body"], "let"):
+                if l["pat"].get("k") != "bind" or l.get("init") is None:
+                    continue
+                r_ = hirq.render(l["init"])
+                m1 = re.fullmatch(r"\(*\(*skin\.(\w+)\.len\(\) / (\d+)\)* as _\)*", r_)
+                m2_ = re.fullmatch(r"\(*\(*n_\w+ as _\)* \* (\d+)\)*", r_) if re.fullmatch(r"(\w+)_size", l["pat"]["name"]) else None
+                if m1 and last == "write":
+                    byname.setdefault(m1.group(1), {})["writer M2Model::write"] = (int(m1.group(2)), f, l.get("ln"))
+                elif m2_ and last == "parse_embedded_skin":
+                    byname.setdefault(l["pat"]["name"][:-5], {})["extractor parse_embedded_skin"] = (int(m2_.group(1)), f, l.get("ln"))
+    if not byname:
+        ctx.bad(R, "embedded-skin|missing", "-", "no element widths recognised", "anchor gone")
+        return
+    for arr, srcs in sorted(byname.items()):
+        if len(srcs) < 2:
+            continue
+        ks = {v[0] for v in srcs.values()}
+        if len(ks) == 1:
+            ctx.ok(R, {"array": arr, "width": ks.pop(), "named_by": sorted(srcs)})
+        else:
+            ref = srcs.get("reader collect_embedded_skin_data") or sorted(srcs.values(), key=lambda v: v[0])[0]
+            who, (k, f, ln) = next((w, v) for w, v in sorted(srcs.items()) if v[0] != ref[0])
+            ctx.bad(R, "embedded-skin|%s|%s" % (arr, who.split()[-1]), "%s:%d" % (f.file, ln or 0), "%s counts `%s` at %d bytes per element, %s" % (who, arr, k, ", ".join("%s at %d" % (w, v[0]) for w, v in sorted(srcs.items()) if w != who)),
+                    "the count written into the view header does not match the bytes stored: a pre-WotLK model written by the library loses (or misreads) that array when parsed back")
+
+
+def vacuous_position_test_rule(ctx, crate, pid, floor):
+    """`let end = r.seek(SeekFrom::End(0))?; if end > r.stream_position()? {..}`: the stream is *at* the end when the position is
+    re-read, so the comparison is a constant — whatever it was meant to detect (trailing optional fields) is never detected.
+    Counted instances: every seek-to-end whose result is bound; judged: a comparison of that value with stream_position() on the
+    same reader with no repositioning in between."""
+    R = ctx.rule("%s.end-position-not-compared-with-itself" % pid, "no comparison of a bound `seek(SeekFrom::End(0))` result with `stream_position()` of the same reader without a seek in between", floor=floor)
+    for f in crate.fn_list:
+        if not f.hir or f.kind == "Closure" or "::tests::" in f.path:
+            continue
+        for blk in [x for x in hirq.walk(f.hir["body"]) if x.get("k") == "block"]:
+            stmts = list(blk.get("stmts") or []) + ([blk["e"]] if blk.get("e") is not None else [])
+            for i, st in enumerate(stmts):
+                if not (st.get("k") == "let" and st["pat"].get("k") == "bind" and st.get("init") is not None):
+                    continue
+                init = hirq.strip(st["init"])
+                mc = next((y for y in hirq.walk(init) if y.get("k") == "mcall" and y["m"] == "seek" and "SeekFrom::End(0)" in hirq.render(y)), None)
+                if mc is None:
+                    continue
+                rdr = hirq.render(mc["recv"])
+                name = st["pat"]["name"]
+                verdict = None
+                for st2 in stmts[i + 1:]:
+                    cmp_ = next((y for y in hirq.walk(st2.get("c") if st2.get("k") == "if" else st2) if y.get("k") == "bin" and y["op"] in ("<", "<=", ">", ">=", "==", "!=") and
+                                 any(z.get("k") == "path" and z["res"].get("local") == name for z in hirq.walk(y)) and
+                                 any(z.get("k") == "mcall" and z["m"] == "stream_position" and hirq.render(z["recv"]) == rdr for z in hirq.walk(y))), None) if isinstance(st2, dict) else None
+                    if cmp_ is not None:
+                        verdict = (cmp_, st2)
+                        break
+                    if any(z.get("k") == "mcall" and z["m"] in ("seek", "read_exact", "read", "rewind", "seek_relative") or (z.get("k") == "mcall" and re.match(r"read_", z["m"])) for z in hirq.walk(st2)):
+                        break           # repositioned / consumed: a later comparison is meaningful
+                if verdict:
+                    ctx.bad(R, "%s|%s" % (f.path.split("::")[-1], name), "%s:%d" % (f.file, verdict[0].get("ln") or 0), "`%s` compares the end position with the position re-read right after seeking to the end" % hirq.render(verdict[0])[:70],
+                            "the test is constant: the optional trailing fields it guards are never read although the writer emits them — they are lost on write -> parse")
+                else:
+                    ctx.ok(R, {"fn": f.path.split("::")[-1], "end_position": name})
+
+
 def run(ctx):
     prog = ctx.prog
     m2 = prog.crate(CR)
@@ -620,6 +703,8 @@ def run(ctx):
 
     enumerate_index_rule(ctx, m2, "C13", floor=20)
     _bone_index_validity_rule(ctx, m2)
+    _embedded_skin_width_rule(ctx, m2)
+    vacuous_position_test_rule(ctx, m2, "C13", floor=2)
     from .c15 import prealloc_cap_rule
     prealloc_cap_rule(ctx, [m2], "C13", floor=10)
     _relocation_rule(ctx, m2)
